@@ -216,7 +216,7 @@ def applyFail (m : FailMode) (c : Code) (msg : String) : R :=
   | .fpEarly => if c = .failedPrecondition then .early else .reject c msg
   | .nfEarly => if c = .notFound then .early else .reject c msg
   | .allEarly => .early
-  | .wrap c' => .reject c' msg
+  | .wrap c' => .reject c' "~"   -- the message is the inner error's text (`err.Error()`), not a literal
 
 /-- one step outside `checkSwampName`; the Bool says "the engine was entered" -/
 def stepBasic (cfg : Cfg) (cx : Ctx) (e : Entry) : Step → R × Bool
